@@ -1,4 +1,5 @@
 import DK.Props.Defs
+import DK.Lemmas.Calc
 import Mathlib.Analysis.Calculus.Deriv.Add
 import Mathlib.Analysis.Calculus.Deriv.Mul
 import Mathlib.Analysis.Calculus.Deriv.Comp
@@ -18,35 +19,7 @@ namespace DK
 
 /-! ## sums and lines -/
 
-theorem sumTo_hasDerivAt (n : ℕ) (f : ℕ → ℝ → ℝ) (f' : ℕ → ℝ) (t : ℝ)
-    (h : ∀ i < n, HasDerivAt (f i) (f' i) t) :
-    HasDerivAt (fun τ => sumTo n (fun i => f i τ)) (sumTo n f') t := by
-  induction n with
-  | zero => simpa [sumTo] using hasDerivAt_const t (0:ℝ)
-  | succ n ih =>
-    simp only [sumTo]
-    exact (ih (fun i hi => h i (Nat.lt_succ_of_lt hi))).add (h n (Nat.lt_succ_self n))
-
-theorem line_hasDerivAt (s d : ℕ → ℝ) (k : ℕ) (t : ℝ) :
-    HasDerivAt (fun τ => line s d τ k) (d k) t := by
-  unfold line
-  have h := ((hasDerivAt_id' t).mul_const (d k)).const_add (s k)
-  refine h.congr_deriv ?_
-  ring
-
-@[simp] theorem line_zero (s d : ℕ → ℝ) (k : ℕ) : line s d 0 k = s k := by simp [line]
-
-theorem line_zero_fn (s d : ℕ → ℝ) : line s d 0 = s := by funext k; simp
-
-theorem sumTo_line_hasDerivAt (n : ℕ) (s d : ℕ → ℝ) (t : ℝ) :
-    HasDerivAt (fun τ => sumTo n (line s d τ)) (sumTo n d) t :=
-  sumTo_hasDerivAt n (fun k τ => line s d τ k) d t (fun k _ => line_hasDerivAt s d k t)
-
-theorem sumRange_line_hasDerivAt (a b : ℕ) (s d : ℕ → ℝ) (t : ℝ) :
-    HasDerivAt (fun τ => sumRange a b (line s d τ)) (sumRange a b d) t := by
-  unfold sumRange
-  exact sumTo_hasDerivAt (b - a) (fun k τ => line s d τ (a + k)) (fun k => d (a + k)) t
-    (fun k _ => line_hasDerivAt s d (a + k) t)
+theorem line_zero_fn (s d : ℕ → ℝ) : line s d 0 = s := line_zero s d
 
 /-- `Σ_j (if i = j then h else 0) * d j = h * d i`. -/
 theorem sumTo_diag_mul (n i : ℕ) (hi : i < n) (h : ℝ) (d : ℕ → ℝ) :
@@ -64,28 +37,10 @@ theorem IsGradAt.const (n : ℕ) (c : ℝ) (s : ℕ → ℝ) : IsGradAt n (fun _
   intro d
   simpa using hasDerivAt_const (0:ℝ) c
 
-theorem IsGradAt.add {n : ℕ} {f f' : (ℕ → ℝ) → ℝ} {g g' s : ℕ → ℝ}
-    (h : IsGradAt n f g s) (h' : IsGradAt n f' g' s) :
-    IsGradAt n (fun x => f x + f' x) (fun j => g j + g' j) s := by
-  intro d
-  refine ((h d).add (h' d)).congr_deriv ?_
-  rw [← sumTo_add]
-  apply sumTo_congr
-  intro k _
-  ring
-
 theorem IsGradAt.add_const {n : ℕ} {f : (ℕ → ℝ) → ℝ} {g s : ℕ → ℝ}
     (h : IsGradAt n f g s) (c : ℝ) : IsGradAt n (fun x => f x + c) g s := by
   intro d
   exact (h d).add_const c
-
-theorem IsGradAt.congr_grad {n : ℕ} {f : (ℕ → ℝ) → ℝ} {g g' s : ℕ → ℝ}
-    (h : IsGradAt n f g s) (hg : ∀ j < n, g j = g' j) : IsGradAt n f g' s := by
-  intro d
-  refine (h d).congr_deriv ?_
-  apply sumTo_congr
-  intro k hk
-  rw [hg k hk]
 
 /-- a function of slot `i` alone has the diagonal gradient. -/
 theorem isGradAt_slot (n i : ℕ) (hi : i < n) (φ : ℝ → ℝ) (h : ℝ) (s : ℕ → ℝ)
@@ -122,85 +77,11 @@ theorem isGradAt_sumRange_comp (n a b : ℕ) (hb : b ≤ n) (φ : ℝ → ℝ) (
 
 /-! ## scalar kernels -/
 
-theorem hlqDeriv_hasDerivAt (pl ph xl xh x : ℝ) :
-    HasDerivAt (fun x => hlqDeriv pl ph xl xh x) (hlqHess pl ph xl xh) x := by
-  unfold hlqDeriv hlqHess
-  by_cases h : xl = xh
-  · simp [h, hasDerivAt_const]
-  · simp only [h, if_false]
-    have h1 : HasDerivAt (fun x : ℝ => (x - xl) / (xh - xl)) (1 / (xh - xl)) x :=
-      ((hasDerivAt_id' x).sub_const xl).div_const (xh - xl)
-    have h2 := (h1.const_mul (ph - pl)).add_const pl
-    refine HasDerivAt.congr_deriv h2 ?_
-    ring
-
 theorem hlqHess_nonneg (pl ph xl xh : ℝ) (hp : pl ≤ ph) (hx : xl ≤ xh) : 0 ≤ hlqHess pl ph xl xh := by
   unfold hlqHess
   split_ifs
   · exact le_refl 0
   · exact div_nonneg (by linarith) (by linarith)
-
-theorem abcQ_hasDerivAt (x xl xh a : ℝ) :
-    HasDerivAt (fun x => abcQ x xl xh a) (-(1 - a) / (xh - xl)) x := by
-  unfold abcQ abcS
-  have h1 : HasDerivAt (fun x : ℝ => (xh - x) / (xh - xl)) (-1 / (xh - xl)) x :=
-    ((hasDerivAt_id' x).const_sub xh).div_const (xh - xl)
-  have h2 := ((h1.const_sub 1).mul_const a).add h1
-  refine HasDerivAt.congr_deriv h2 ?_
-  ring
-
-/-- real exponent, away from `q = 0`. -/
-theorem abcDeriv_rpow_hasDerivAt (x a b c xl xh : ℝ) (hq : xl = xh ∨ 0 < abcQ x xl xh a) :
-    HasDerivAt (fun x => abcDeriv Real.rpow id x a b c xl xh) (abcHess Real.rpow id x a b c xl xh) x := by
-  unfold abcDeriv abcHess
-  by_cases h : xl = xh
-  · simp [h, hasDerivAt_const]
-  · simp only [h, if_false, id, Real.rpow_eq_pow]
-    have hq' : 0 < abcQ x xl xh a := hq.resolve_left h
-    have h1 := (abcQ_hasDerivAt x xl xh a).rpow_const (p := b - 1) (Or.inl (ne_of_gt hq'))
-    have h2 := ((h1.const_mul (-c * b)).mul_const (1 - a)).div_const (xh - xl)
-    refine HasDerivAt.congr_deriv h2 ?_
-    have e : b - 1 - 1 = b - 2 := by ring
-    rw [e]
-    ring
-
-theorem ipow_natCast (q : ℝ) (m : ℕ) : ipow q (m : ℤ) = q ^ m := by
-  unfold ipow
-  simp
-
-theorem intCast'_eq (k : ℤ) : (intCast' k : ℝ) = (k : ℝ) := by
-  unfold intCast'
-  split_ifs with h
-  · obtain ⟨m, rfl⟩ := Int.eq_ofNat_of_zero_le h
-    simp
-  · obtain ⟨m, hm⟩ := Int.eq_ofNat_of_zero_le (show 0 ≤ -k by omega)
-    have hk : k = -(m : ℤ) := by omega
-    subst hk
-    simp
-
-/-- integer exponent `b ≥ 1`: no positivity of `q` needed. -/
-theorem abcDeriv_ipow_hasDerivAt (x a : ℝ) (b : ℤ) (c xl xh : ℝ) (hb : 1 ≤ b) :
-    HasDerivAt (fun x => abcDeriv ipow intCast' x a b c xl xh) (abcHess ipow intCast' x a b c xl xh) x := by
-  unfold abcDeriv abcHess
-  by_cases h : xl = xh
-  · simp [h, hasDerivAt_const]
-  · simp only [h, if_false, intCast'_eq]
-    obtain ⟨m, rfl⟩ : ∃ m : ℕ, b = (m : ℤ) + 1 := ⟨(b - 1).toNat, by omega⟩
-    have e1 : ((m : ℤ) + 1 - 1) = (m : ℤ) := by ring
-    rw [e1]
-    simp only [ipow_natCast]
-    rcases m with _ | m
-    · -- b = 1: the marginal cost is constant
-      simp only [Nat.cast_zero, pow_zero, zero_add, Int.cast_one, sub_self, mul_zero, zero_mul]
-      exact hasDerivAt_const x _
-    · have e2 : (((m + 1 : ℕ) : ℤ) + 1 - 2) = (m : ℤ) := by push_cast; ring
-      rw [e2, ipow_natCast]
-      have h1 := (abcQ_hasDerivAt x xl xh a).pow (m + 1)
-      have h2 := ((h1.const_mul (-c * (((m + 1 : ℕ) : ℤ) + 1 : ℤ))).mul_const (1 - a)).div_const (xh - xl)
-      refine HasDerivAt.congr_deriv h2 ?_
-      simp only [Nat.add_sub_cancel]
-      push_cast
-      ring
 
 theorem abcHess_rpow_nonneg (x a b c xl xh : ℝ) (hb : 1 ≤ b) (hc : 0 ≤ c) (hq : 0 ≤ abcQ x xl xh a) :
     0 ≤ abcHess Real.rpow id x a b c xl xh := by
@@ -215,35 +96,6 @@ theorem abcHess_rpow_nonneg (x a b c xl xh : ℝ) (hb : 1 ≤ b) (hc : 0 ≤ c) 
 
 /-! ## polynomials (Horner form, highest degree first) -/
 
-theorem polyEval_foldl (cs : List ℝ) (acc x : ℝ) :
-    cs.foldl (fun acc c => acc * x + c) acc = acc * x ^ cs.length + polyEval cs x := by
-  unfold polyEval
-  induction cs using List.reverseRecOn with
-  | nil => simp
-  | append_singleton cs c ih =>
-    simp only [List.foldl_append, List.foldl_cons, List.foldl_nil, List.length_append,
-      List.length_singleton]
-    rw [ih]
-    ring
-
-theorem polyEval_nil (x : ℝ) : polyEval ([] : List ℝ) x = 0 := rfl
-
-theorem polyEval_cons (c : ℝ) (cs : List ℝ) (x : ℝ) :
-    polyEval (c :: cs) x = c * x ^ cs.length + polyEval cs x := by
-  have := polyEval_foldl cs c x
-  unfold polyEval at *
-  simpa using this
-
-theorem polyDer_length (cs : List ℝ) : (polyDer cs).length = cs.length - 1 := by
-  induction cs with
-  | nil => rfl
-  | cons c cs ih =>
-    cases cs with
-    | nil => rfl
-    | cons d ds =>
-      simp only [polyDer, List.length_cons] at ih ⊢
-      omega
-
 theorem polyEval_polyDer_cons (c : ℝ) (cs : List ℝ) (x : ℝ) :
     polyEval (polyDer (c :: cs)) x
       = (cs.length : ℝ) * c * x ^ (cs.length - 1) + polyEval (polyDer cs) x := by
@@ -254,18 +106,6 @@ theorem polyEval_polyDer_cons (c : ℝ) (cs : List ℝ) (x : ℝ) :
     rw [polyEval_cons, natCast'_eq]
     have := polyDer_length (d :: ds)
     rw [this]
-
-theorem polyEval_hasDerivAt (cs : List ℝ) (x : ℝ) :
-    HasDerivAt (fun x => polyEval cs x) (polyEval (polyDer cs) x) x := by
-  induction cs with
-  | nil => simpa [polyEval_nil, polyDer] using hasDerivAt_const x (0:ℝ)
-  | cons c cs ih =>
-    have hf : (fun x => polyEval (c :: cs) x) = fun x => c * x ^ cs.length + polyEval cs x := by
-      funext y; exact polyEval_cons c cs y
-    rw [hf, polyEval_polyDer_cons]
-    have h1 := ((hasDerivAt_pow cs.length x).const_mul c).add ih
-    refine HasDerivAt.congr_deriv h1 ?_
-    ring
 
 /-! ## quadratic forms -/
 
